@@ -20,7 +20,7 @@ CODES = {1: "outcome differs from the model", 2: "the record's scheme/address/po
          4: "Scan took longer than the model's logical duration + slack"}
 OBS = {0: "report(info,secondary)", 1: "report(info)", 2: "report(NO info,secondary)", 3: "report(NO info)", 4: "error",
        11: "HANG", 96: "nil-result-without-error", 97: "result-and-error", 98: "harness-error"}
-BODY = {"object": "BObject", "object_trailing": "BObjectTrailing", "object_ill_typed": "BObjectIllTyped",
+BODY = {"empty_object": "BObject", "empty_object_ws": "BObject", "object": "BObject", "object_trailing": "BObjectTrailing", "object_ill_typed": "BObjectIllTyped",
         "huge_object": "BObject", "null": "BNull", "array": "BNonObject", "string": "BNonObject", "number": "BNonObject",
         "true": "BNonObject", "empty": "BEmpty", "truncated": "BTruncated", "truncated_conn": "BTruncated",
         "garbage": "BGarbage", "endless": "BEndless", "stall_mid": "BStall", "": "BEmpty"}
@@ -50,7 +50,7 @@ def objectish(kind, slot, r):
         return False
     ok = {"object", "object_trailing", "huge_object"}
     if kind == "elastic":
-        ok.add("object_ill_typed")
+        ok |= {"object_ill_typed", "empty_object", "empty_object_ws"}
         return r["body"] in ok
     return r["body"] in ok and 200 <= r["status"] < 400
 
@@ -59,26 +59,36 @@ def expected_host(o):
     return ("%s:%d" if o["kind"] == "elastic" else "tcp://%s:%d") % (o["ip"], o["port"])
 
 
+def answers(r):
+    """the peer does answer this request (possibly late), without stalling mid-body"""
+    return r["kind"] in ("resp", "close", "rst") and r.get("body") not in ("stall_mid",) and \
+        not (r.get("body") == "endless" and r.get("status", 200) >= 400)
+
+
 def quick(o, r):
-    return r["kind"] in ("resp", "close", "rst") and r["delay"] <= 0.3 * o["timeout"] and \
-        r.get("body") not in ("stall_mid",) and not (r.get("body") == "endless" and r.get("status", 200) >= 400)
+    return answers(r) and r["delay"] <= 0.3 * o["timeout"]
 
 
 def comfortable(o):
-    """primary request(s) answered quickly with an object and nothing interferes"""
+    """primary request(s) answered with an object well inside the configured timeout and nothing interferes: either every
+    request of the primary path within 0.3 T, or (slow answers, long timeouts) the whole path at least 1.5 s before T"""
     if o["mode"] != "accept" or mismatch(o) or o["timeout"] < 100 or (o["cancel"] != -1 and o["cancel"] < 800):
         return False
     s = o["slots"]
-    if not objectish(o["kind"], "info", s["info"]) or not quick(o, s["info"]):
+    if not objectish(o["kind"], "info", s["info"]):
         return False
+    path = [s["info"]]
     if o["kind"] == "docker":
         h = s["ping_head"]
-        if not quick(o, h):
-            return False
-        uses_get = not (h["kind"] == "resp" and h["status"] in (200, 500))
-        if uses_get and not quick(o, s["ping_get"]):
-            return False
-    return True
+        path.append(h)
+        if not (h["kind"] == "resp" and h["status"] in (200, 500)):
+            path.append(s["ping_get"])
+    if not all(answers(r) for r in path):
+        return False
+    if all(quick(o, r) for r in path):
+        return True
+    total = sum(r["delay"] for r in path)
+    return total <= o["timeout"] - 1500 if o["kind"] == "docker" else all(r["delay"] <= o["timeout"] - 1500 for r in path)
 
 
 def time_bound(o):
@@ -369,6 +379,23 @@ def race_overlap(ctx):
         ctx.info.append("race run of c10 exited with %d" % rc)
 
 
+def new_findings(ctx):
+    """findings that are not recorded known findings (those are always present and must not stop the search)"""
+    known = verif.load_known()
+    return [f for f in ctx.findings if verif.match_known(known, ctx.pid, f) is None]
+
+
+def slow_search(ctx):
+    ok, _ = ctx.harness_run("c10", ["-out", "slow.jsonl", "-seed", ctx.seed, "-slow-only"], timeout=600)
+    if not ok:
+        return
+    for o in ctx.read_jsonl(os.path.join(ctx.work, "slow.jsonl")):
+        ctx.count(o["class"], shape(o), nontrivial=True)
+        why = spec_on_impl(o)
+        if why:
+            report(ctx, o, why)
+
+
 def gen_and_build(ctx):
     """Translator + Coq build.  coq/Gen is shared by all checks: a check of another property running at the same time
     against another tree may rewrite Gen/ProbeConsts.v between our translation and our build; detect that (content
@@ -434,6 +461,8 @@ def run(ctx):
     rows, bad = [], {}
     if ctx.harness_build("c10"):
         args = ["-out", "cases.jsonl", "-seed", ctx.seed, "-n", 60 if quick_tier else 1500]
+        if not quick_tier:
+            args.append("-slow")   # answers later than the scanners' built-in defaults, inside a larger configured timeout (~11 s)
         sx = build_sx(ctx)
         if sx:
             args += ["-e2e", sx]
@@ -467,9 +496,27 @@ def run(ctx):
     if getattr(ctx, "suppressed", 0):
         ctx.info.append("%d further failing cases of the same kinds are not listed" % ctx.suppressed)
     # a finding that is a recorded known finding explains the model/proof side only if the model agrees with the code
-    if ctx.broken and not ctx.findings and quick_tier and os.path.exists(os.path.join(verif.HBIN, "c10")):
+    slow_first = False
+    if ctx.broken and not new_findings(ctx) and quick_tier and os.path.exists(os.path.join(verif.HBIN, "c10")):
+        # time limits other than the configured one (e.g. a fixed http.Client.Timeout) only show with a configured timeout
+        # above the built-in defaults and an answer later than those: ~11 s, so only here and in the thorough tier.
+        # First when the changed sources point there, otherwise after the cheaper searches.
+        diff = " ".join(getattr(ctx, "source_diff", []) or [])
+        try:
+            gen_txt = open(os.path.join(verif.COQ, "Gen", "ProbeConsts.v")).read()
+        except OSError:
+            gen_txt = ""
+        own_limits = re.findall(r"(\w+_new_literal_timeouts) : list string := \[(.+?)\]", gen_txt)
+        if own_limits:
+            ctx.info.append("time limits besides the configured one: " + "; ".join("%s = [%s]" % kv for kv in own_limits))
+        slow_first = bool(own_limits) or "NewScanner" in diff or "WithDataTimeout" in diff
+        if slow_first:
+            slow_search(ctx)
+    if ctx.broken and not new_findings(ctx) and quick_tier and os.path.exists(os.path.join(verif.HBIN, "c10")):
         run_overlap(ctx, 60000, 25000, "overlap_search")
-    if ctx.broken and not ctx.findings and os.path.exists(os.path.join(verif.HBIN, "c10")):
+        if not new_findings(ctx) and not slow_first:
+            slow_search(ctx)
+    if ctx.broken and not new_findings(ctx) and os.path.exists(os.path.join(verif.HBIN, "c10")):
         ok, _ = ctx.harness_run("c10", ["-out", "search.jsonl", "-seed", ctx.seed + 23, "-n", 600], timeout=1500)
         if ok:
             srows = ctx.read_jsonl(os.path.join(ctx.work, "search.jsonl"))
